@@ -122,14 +122,50 @@ theorem mem_vMism (env : Env) (t : Node) (rootHist : Hist) (o : VerifyOpts) (has
   unfold vMism
   simp [List.mem_filter]
 
+theorem hitAbove_false_iff (hit : RelPath → Bool) (p : RelPath) :
+    hitAbove hit p = false ↔ ∀ i, i < p.length → hit (p.take (i + 1)) = false := by
+  unfold hitAbove
+  rw [Bool.eq_false_iff]
+  simp only [ne_eq, List.any_eq_true, List.mem_range, not_exists, not_and, Bool.not_eq_true]
+
+/-- a matched path is excluded (the last prefix is the path itself) -/
+theorem hitAbove_of_hit (hit : RelPath → Bool) (p : RelPath) (hne : p ≠ []) (h : hit p = true) :
+    hitAbove hit p = true := by
+  unfold hitAbove
+  rw [List.any_eq_true]
+  refine ⟨p.length - 1, ?_, ?_⟩
+  · have : 0 < p.length := List.length_pos_iff.mpr hne
+    simp only [List.mem_range]; omega
+  · have : 0 < p.length := List.length_pos_iff.mpr hne
+    have h1 : p.length - 1 + 1 = p.length := by omega
+    rw [h1, List.take_length]; exact h
+
+/-- a path none of whose prefixes is matched is not excluded -/
+theorem hitAbove_false_of_prefixes (hit : RelPath → Bool) (p : RelPath)
+    (h : ∀ q, q ≠ [] → q <+: p → hit q = false) : hitAbove hit p = false := by
+  rw [hitAbove_false_iff]
+  intro i hi
+  apply h
+  · intro hnil
+    have := congrArg List.length hnil
+    simp only [List.length_take, List.length_nil] at this
+    omega
+  · exact List.take_prefix _ _
+
+theorem hitAbove_false_hit (hit : RelPath → Bool) (p : RelPath) (hne : p ≠ []) (h : hitAbove hit p = false) :
+    hit p = false := by
+  cases hh : hit p with
+  | false => rfl
+  | true => rw [hitAbove_of_hit hit p hne hh] at h; exact absurd h (by simp)
+
 theorem mem_missingAfter (hit : RelPath → Bool) (l : List RelPath) (p : RelPath) :
-    p ∈ missingAfter hit l ↔ p ∈ l ∧ hit p = false := by
+    p ∈ missingAfter hit l ↔ p ∈ l ∧ hitAbove hit p = false := by
   unfold missingAfter
   simp [List.mem_filter]
 
 theorem mem_vMissing (env : Env) (t : Node) (rootHist : Hist) (o : VerifyOpts) (p : RelPath) :
     p ∈ vMissing env t rootHist o ↔
-      p ∈ expectedPaths rootHist ∧ p ∉ vFound env t rootHist o ∧ vHit env rootHist o p = false := by
+      p ∈ expectedPaths rootHist ∧ p ∉ vFound env t rootHist o ∧ hitAbove (vHit env rootHist o) p = false := by
   unfold vMissing
   rw [mem_missingAfter, List.mem_filter]
   simp [and_assoc]
